@@ -168,7 +168,7 @@ PROPS.update({
         "note": PROOF_NOTE + " Isolation of Tokio tasks (a panic unwinds only its task) is a property of the runtime, assumed.",
         "technique": "Lean 4 theorems on the actor model and on the wait-for protocol model + replay of real multi-actor histories on the model",
         "monitors": ["C03", "C04", "C05", "C13"],
-        "extra": ["netcorr"],
+        "extra": ["stress", "netcorr"],
         "corr": corr(["eager", "shutdown", "mixed", "burst", "idle"]),
         "extract_items": ["ask_protocol", "lifecycle", "feature_sites"],
         "assumptions": COMMON_ASSUME + ["a panic unwinds only the panicking task (Tokio)"],
